@@ -30,6 +30,7 @@ RULE = (
     "dropped; plus two streams created in one scope consumed in 5 orders in / after / outside that scope; non-trivial = consumer context differs from creation context, or the stream is "
     "not consumed to the end"
 )
+RULE += " Rounds 10-13: LONG streams (5-128 (257) items); items that look like markers (None, 0, '', exception instances); no scope around a stream holds a foreign metric; a second stream created inside an update; streams prepared by helper tasks that finish first."
 ASSUMPTIONS = [
     "GC and async-generator finalisation happen at fixed points (after the consumer finished)",
     "consumer fingerprint = ctx.state(A) result + scope label seen by ctx.log_info",
